@@ -52,6 +52,17 @@ func (v *Value) IsBool() bool {
 	return v.getResolvedValue().Kind() == reflect.Bool
 }
 
+// isStringer checks whether the underlying value renders through its own
+// String() method (see Value.String); such text originates from the caller
+// and is subject to autoescaping like any string.
+func (v *Value) isStringer() bool {
+	if v.IsNil() {
+		return false
+	}
+	_, ok := v.Interface().(fmt.Stringer)
+	return ok
+}
+
 // IsFloat checks whether the underlying value is a float
 func (v *Value) IsFloat() bool {
 	return v.getResolvedValue().Kind() == reflect.Float32 ||
